@@ -6,6 +6,7 @@
 package main
 
 import (
+	"context"
 	"encoding/base64"
 	"encoding/json"
 	"io"
@@ -89,6 +90,7 @@ const (
 	// a near miss of X's id (surrounding white space, other case, ...) with a secret, in the Basic header or in the form
 	pNearID
 	pAssertID // client_id=X + client_assertion + client_assertion_type
+	pXSub     // assertion issued and signed by X with sub = Y; artefact of Y
 )
 
 const (
@@ -133,6 +135,25 @@ var nearForms = []strForm{
 	{"trail_nbsp", func(r string) string { return r + "\u00a0" }}, {"upper", strings.ToUpper}, {"fold", fold},
 	{"slash", func(r string) string { return r + "/" }}, {"drop_last", func(r string) string { return r[:len(r)-1] }},
 	{"extend", func(r string) string { return r + "x" }}, {"nul", func(r string) string { return r + "\x00" }},
+	// strings that percent-decode ONE MORE time to the original (Basic user / password are decoded once, RFC 6749 2.3.1, a form
+	// value not at all beyond the form decoding); never sent raw, so that the library sees exactly this string
+	{"once_pct_first", func(r string) string { return fmt.Sprintf("%%%02X", r[0]) + r[1:] }}, {"once_pct_all", pctAll},
+	{"once_pct_lower", func(r string) string { return r[:len(r)-1] + fmt.Sprintf("%%%02x", r[len(r)-1]) }},
+	{"once_plus", func(r string) string {
+		if strings.Contains(r, " ") {
+			return strings.ReplaceAll(r, " ", "+")
+		}
+		return r[:1] + fmt.Sprintf("%%%02X", r[1]) + r[2:]
+	}},
+}
+
+func formIndex(fs []strForm, name string) int {
+	for i, f := range fs {
+		if f.Name == name {
+			return i
+		}
+	}
+	panic("no form " + name)
 }
 
 // plain wrong secrets, among them the keyword-like literals and an over-long one
@@ -198,15 +219,15 @@ func wire(s string, enc int) string {
 	return s
 }
 
-func isCross(k int) bool { return k >= pXBasic && k <= pXDup }
+func isCross(k int) bool { return k >= pXBasic && k <= pXDup || k == pXSub }
 
 var partialN = map[int]string{pAssertTypeOnly: "PAssertTypeOnly", pAssertNoType: "PAssertNoType", pAssertWrongType: "PAssertWrongType"}
 var partialT = map[int]string{pAssertTypeOnly: "assertion_type_only", pAssertNoType: "assertion_no_type", pAssertWrongType: "assertion_wrong_type"}
 var prevN = []string{"NoPrev", "PrevAssert", "PrevBasic", "PrevPost", "PrevSelf"}
 var prevT = []string{"none", "assertion", "basic", "post", "self"}
 
-var crossN = map[int]string{pXBasic: "PXBasic", pXAssert: "PXAssert", pXPost: "PXPost", pXPostID: "PXPostId", pXDup: "PXDup"}
-var crossT = map[int]string{pXBasic: "cross_basic", pXAssert: "cross_assertion", pXPost: "cross_post_basic_other", pXPostID: "cross_post_other_id", pXDup: "cross_dup_client_id"}
+var crossN = map[int]string{pXBasic: "PXBasic", pXAssert: "PXAssert", pXPost: "PXPost", pXPostID: "PXPostId", pXDup: "PXDup", pXSub: "PXSub"}
+var crossT = map[int]string{pXBasic: "cross_basic", pXAssert: "cross_assertion", pXPost: "cross_post_basic_other", pXPostID: "cross_post_other_id", pXDup: "cross_dup_client_id", pXSub: "cross_assertion_subject"}
 
 // where parameters travel
 var gplaceN = []string{"GPBody", "GPQuery", "GPBothSame", "GPBothDiff"}
@@ -223,6 +244,7 @@ func (p plT) coq() string {
 type cfgT struct {
 	Post, PKJWT, Refresh, CC, TE, Dev bool
 	NoJP                                bool // the provider object handed to NewLegacyServer hides the optional method JWTProfileVerifier
+	Sub                                 bool // the provider's JWTProfileVerifier is overridden: custom op.SubjectCheck that lets iss != sub pass
 }
 
 type regT struct {
@@ -267,7 +289,7 @@ type caseT struct {
 }
 
 func (c cfgT) coq() string {
-	return emit.Ctor("mkCfg", emit.Bool(c.Post), emit.Bool(c.PKJWT), emit.Bool(c.Refresh), emit.Bool(c.CC), emit.Bool(c.TE), emit.Bool(c.Dev), emit.Bool(!c.NoJP))
+	return emit.Ctor("mkCfg", emit.Bool(c.Post), emit.Bool(c.PKJWT), emit.Bool(c.Refresh), emit.Bool(c.CC), emit.Bool(c.TE), emit.Bool(c.Dev), emit.Bool(!c.NoJP), emit.Bool(c.Sub))
 }
 func (r regT) coq() string {
 	var gs []string
@@ -325,7 +347,7 @@ func (p presT) tag() string {
 		return "assertion_" + strings.ToLower(assN[p.A][1:])
 	case pAssertID:
 		return "id_and_assertion_" + strings.ToLower(assN[p.A][1:])
-	case pXBasic, pXAssert, pXPost, pXPostID, pXDup:
+	case pXBasic, pXAssert, pXPost, pXPostID, pXDup, pXSub:
 		return crossT[p.Kind]
 	case pAssertTypeOnly, pAssertNoType, pAssertWrongType:
 		return partialT[p.Kind]
@@ -345,15 +367,19 @@ func (p presT) formTags() []string {
 	basic := p.Kind == pBasic || p.Kind == pBoth || p.Kind == pNearID && p.Slot == 0
 	post := p.Kind == pPost || p.Kind == pBoth || p.Kind == pNearID && p.Slot == 1
 	if basic {
-		_, n := secretString(p.B, p.BF, "x")
-		t = append(t, "basic_secret="+n, "basic_enc="+encT[p.enc()])
+		_, n := secretString(p.B, p.BF, "xxxx")
+		enc := p.enc()
+		if enc == 0 && (strings.Contains(n, "once_") || p.Kind == pNearID && strings.HasPrefix(idForms[p.IDF%len(idForms)].Name, "once_")) {
+			enc = 1
+		}
+		t = append(t, "basic_secret="+n, "basic_enc="+encT[enc])
 	}
 	if post {
 		k, f := p.P, p.PF
 		if p.Kind == pNearID {
 			k, f = p.B, p.BF
 		}
-		_, n := secretString(k, f, "x")
+		_, n := secretString(k, f, "xxxx")
 		t = append(t, "form_secret="+n, "form_enc="+fencT[p.FEnc])
 	}
 	if p.Kind == pNearID {
@@ -386,7 +412,7 @@ func (c caseT) tags() []string {
 		"meth=" + strings.ToLower(methN[c.Reg.Meth][1:]), "app=" + strings.ToLower(appN[c.Reg.App][1:]),
 		"pres=" + c.Pres.tag(), "known=" + onoff(c.Reg.Known), "key=" + onoff(c.Reg.HasKey),
 		"post=" + onoff(c.Cfg.Post), "pkjwt=" + onoff(c.Cfg.PKJWT), "refresh=" + onoff(c.Cfg.Refresh),
-		"cc=" + onoff(c.Cfg.CC), "te=" + onoff(c.Cfg.TE), "dev=" + onoff(c.Cfg.Dev), "jwtprofile_method=" + onoff(!c.Cfg.NoJP)}
+		"cc=" + onoff(c.Cfg.CC), "te=" + onoff(c.Cfg.TE), "dev=" + onoff(c.Cfg.Dev), "jwtprofile_method=" + onoff(!c.Cfg.NoJP), "subject_check=" + map[bool]string{false: "default", true: "custom"}[c.Cfg.Sub]}
 	if c.Reg.Meth == 4 {
 		t = append(t, "meth_value="+methOther[c.Reg.MV%len(methOther)].Name)
 	}
@@ -428,6 +454,17 @@ type world struct {
 	// the LegacyServer router over a provider object that hides every optional method the LegacyServer type-asserts on
 	// its provider (JWTProfileVerifier: interfaces ClientJWTProfile and JWTAuthorizationGrantExchanger)
 	legacyBare http.Handler
+	// both routers over a wrapper around the provider whose JWTProfileVerifier has a permissive SubjectCheck
+	subject [2]http.Handler
+}
+
+// subProvider overrides the JWT profile verifier the provider hands out (client authentication by assertion and the
+// jwt-bearer grant): same storage, issuer and offset, a shorter max iat age, and a SubjectCheck that accepts any subject
+type subProvider struct{ *op.Provider }
+
+func (p subProvider) JWTProfileVerifier(ctx context.Context) *op.JWTProfileVerifier {
+	return op.NewJWTProfileVerifier(p.Storage(), op.IssuerFromContext(ctx), 10*time.Minute, time.Second,
+		op.SubjectCheck(func(*oidc.JWTTokenRequest) error { return nil }))
 }
 
 // bareProvider embeds the OpenIDProvider interface: only its methods are visible, not the optional ones of *op.Provider
@@ -446,6 +483,9 @@ func (w *world) handler(c caseT) http.Handler {
 	if c.Router == 1 && c.Cfg.NoJP {
 		return w.legacyBare
 	}
+	if c.Cfg.Sub {
+		return w.subject[c.Router]
+	}
 	return w.f.Handlers[c.Router]
 }
 
@@ -454,7 +494,7 @@ var worlds = map[cfgT]*world{}
 var primerFailed int // primer requests that were not answered active:true (must stay 0)
 
 func worldOf(c cfgT) *world {
-	c.NoJP = false // one fixture serves both
+	c.NoJP, c.Sub = false, false // one fixture serves all
 	if w, ok := worlds[c]; ok {
 		return w
 	}
@@ -472,6 +512,9 @@ func worldOf(c cfgT) *world {
 	}
 	w.legacyBare = op.RegisterLegacyServer(op.NewLegacyServer(bareProvider{f.Provider}, *op.DefaultEndpoints), op.AuthorizeCallbackHandler(f.Provider),
 		op.WithFallbackLogger(slog.New(slog.NewTextHandler(io.Discard, nil))))
+	quiet := op.WithFallbackLogger(slog.New(slog.NewTextHandler(io.Discard, nil)))
+	w.subject[0] = op.CreateRouter(subProvider{f.Provider})
+	w.subject[1] = op.RegisterLegacyServer(op.NewLegacyServer(subProvider{f.Provider}, *op.DefaultEndpoints), op.AuthorizeCallbackHandler(f.Provider), quiet)
 	worlds[c] = w
 	return w
 }
@@ -484,14 +527,16 @@ var (
 const redirectURI = "https://app.example.com/cb"
 const verifier = "c05-verifier-c05-verifier-c05-verifier-c05-verifier"
 
-func signAssertion(key any, iss string, aud []string) string {
+func signAssertion(key any, iss string, aud []string) string { return signAssertionSub(key, iss, iss, aud) }
+
+func signAssertionSub(key any, iss, sub string, aud []string) string {
 	signer, err := jose.NewSigner(jose.SigningKey{Algorithm: jose.ES256, Key: key},
 		(&jose.SignerOptions{}).WithHeader("kid", "k1"))
 	if err != nil {
 		panic(err)
 	}
 	now := time.Now()
-	payload, err := json.Marshal(map[string]any{"iss": iss, "sub": iss, "aud": aud, "iat": now.Add(-time.Second).Unix(), "exp": now.Add(time.Hour).Unix()})
+	payload, err := json.Marshal(map[string]any{"iss": iss, "sub": sub, "aud": aud, "iat": now.Add(-time.Second).Unix(), "exp": now.Add(time.Hour).Unix()})
 	if err != nil {
 		panic(err)
 	}
@@ -685,12 +730,12 @@ func run(c caseT) outcome {
 	dupQueryID := ""
 	basicID, basicSec, useBasic := "", "", false
 	benc := c.Pres.enc()
-	if c.SecKind >= 4 && benc == 0 {
-		benc = 1 // a secret with "+" or "%" in it must be encoded in the Basic header
-	}
 	sec := func(k, f int) string {
 		s, _ := secretString(k, f, secret)
 		return s
+	}
+	if benc == 0 && strings.ContainsAny(sentID+sec(c.Pres.B, c.Pres.BF), "%+") {
+		benc = 1 // a user / password with "+" or "%" in it must be encoded in the Basic header to arrive as it is
 	}
 	switch c.Pres.Kind {
 	case pIDOnly:
@@ -744,6 +789,9 @@ func run(c caseT) outcome {
 		cform.Set("client_assertion_type", oidc.ClientAssertionTypeJWTAssertion)
 		cform.Set("client_assertion", signAssertion(rightKey, id, []string{opfix.Issuer}))
 		cform.Set("client_id", vid)
+	case pXSub:
+		cform.Set("client_assertion_type", oidc.ClientAssertionTypeJWTAssertion)
+		cform.Set("client_assertion", signAssertionSub(rightKey, id, vid, []string{opfix.Issuer}))
 	case pXPost:
 		basicID, basicSec, useBasic = vid, "wrong-secret", true
 		cform.Set("client_id", id)
@@ -1062,7 +1110,7 @@ func allPres() []presT {
 	return ps
 }
 
-var crossKinds = []int{pXBasic, pXAssert, pXPost, pXPostID, pXDup}
+var crossKinds = []int{pXBasic, pXAssert, pXPost, pXPostID, pXDup, pXSub}
 
 // drawForms: the concrete strings and wire encodings behind the abstract presentation
 func drawForms(r drv.Rand, p presT) presT {
@@ -1118,7 +1166,7 @@ func drawPl(r drv.Rand) plT {
 func bits(n, k int) bool { return n>>k&1 == 1 }
 
 func cfgOf(n int) cfgT {
-	return cfgT{Post: bits(n, 0), PKJWT: bits(n, 1), Refresh: bits(n, 2), CC: bits(n, 3), TE: bits(n, 4), Dev: bits(n, 5), NoJP: bits(n, 6)}
+	return cfgT{Post: bits(n, 0), PKJWT: bits(n, 1), Refresh: bits(n, 2), CC: bits(n, 3), TE: bits(n, 4), Dev: bits(n, 5), NoJP: bits(n, 6), Sub: bits(n, 7)}
 }
 
 // grantOf(endpoint, grant): the grant whose registration matters for the case (-1: none)
@@ -1155,7 +1203,7 @@ func randomCase(r drv.Rand) caseT {
 	}
 	c.SecKind = drawSecKind(r)
 	// mostly-on configuration, each switch off with probability 1/4
-	c.Cfg = cfgT{!r.Chance(1, 4), !r.Chance(1, 4), !r.Chance(1, 4), !r.Chance(1, 4), !r.Chance(1, 4), !r.Chance(1, 4), r.Chance(1, 4)}
+	c.Cfg = cfgT{!r.Chance(1, 4), !r.Chance(1, 4), !r.Chance(1, 4), !r.Chance(1, 4), !r.Chance(1, 4), !r.Chance(1, 4), r.Chance(1, 4), r.Chance(1, 4)}
 	c.Reg.Known = !r.Chance(1, 10)
 	c.Reg.Meth, c.Reg.MV = r.IntN(5), r.IntN(64)
 	c.Reg.App = r.IntN(3)
@@ -1203,7 +1251,7 @@ func full(grants ...int) [7]bool {
 
 // directed cases: the inputs of the defects this check found (kept so they are reported again if they return)
 func directed() []caseT {
-	allOn := cfgT{true, true, true, true, true, true, false}
+	allOn := cfgT{true, true, true, true, true, true, false, false}
 	web := func(m int, gr [7]bool) regT { return regT{Known: true, Meth: m, App: 0, Grants: gr, HasKey: m == 2} }
 	var cs []caseT
 	// F03: malformed escape in the Basic header, the five legacy grant handlers of the Provider router
@@ -1241,7 +1289,7 @@ func directed() []caseT {
 // (2) every router x endpoint/grant x cross-client presentation x auth method of the second client, for a basic and a
 // private_key_jwt client X; (3) every router x endpoint/grant x placement of grant_type / client parameters / artefact.
 func systematic() []caseT {
-	allOn := cfgT{true, true, true, true, true, true, false}
+	allOn := cfgT{true, true, true, true, true, true, false, false}
 	var cs []caseT
 	rot := 0 // rotates through the concrete near-miss forms
 	type eg struct{ e, g int }
@@ -1362,6 +1410,20 @@ func systematic() []caseT {
 				nm(presT{Kind: pPost, P: sWrong})
 				nm(presT{Kind: pBoth, B: sBlank, P: sBlank, Enc: rot % 3})
 				nm(presT{Kind: pNearID, Slot: 2, B: sEmpty})
+				// strings that percent-decode once more to the right secret / id, in the form and in the header
+				nmf := func(p presT, form string) {
+					p.BF, p.PF, p.IDF = formIndex(nearForms, form), formIndex(nearForms, form), formIndex(idForms, form)
+					p.Pct = p.Enc != 0
+					cs = append(cs, caseT{Router: router, Endpoint: x.e, Grant: x.g, Cfg: allOn, Reg: rg, Pres: p, SecKind: []int{0, 4, 5}[rot%3], Tag: "block=near_miss"})
+					rot++
+				}
+				nmf(presT{Kind: pPost, P: sNear}, "once_pct_first")
+				nmf(presT{Kind: pPost, P: sNear, FEnc: 1}, "once_pct_all")
+				nmf(presT{Kind: pPost, P: sNear}, "once_plus")
+				nmf(presT{Kind: pBasic, B: sNear, Enc: 2}, "once_pct_lower")
+				nmf(presT{Kind: pBasic, B: sNear}, "once_plus")
+				nmf(presT{Kind: pNearID, Slot: 1, B: sRight}, "once_pct_first")
+				nmf(presT{Kind: pNearID, Slot: 0, B: sRight, Enc: 1}, "once_pct_all")
 				nm(presT{Kind: pAssert, A: 2})
 				nm(presT{Kind: pAssertWrongType})
 			}
@@ -1387,6 +1449,25 @@ func systematic() []caseT {
 					pr.AF = len(cs)
 					cs = append(cs, caseT{Router: 1, Endpoint: x.e, Grant: x.g, Cfg: bare, Reg: rg, Pres: pr, Tag: "block=bare_provider"})
 				}
+			}
+			// (9) the provider's JWT profile verifier is built with a custom SubjectCheck that lets iss != sub pass: an assertion issued
+			// and signed by X whose subject is a second registered client Y (the artefact is Y's) - with the default check too -,
+			// and the ordinary credentials under that verifier
+			subj := allOn
+			subj.Sub = true
+			for _, meth := range []int{2, 0} {
+				rg := regT{Known: true, Meth: meth, App: 0, Grants: full(), HasKey: true}
+				for _, vm := range []int{2, 3, 0} {
+					for _, cf := range []cfgT{subj, allOn} {
+						cs = append(cs, caseT{Router: router, Endpoint: x.e, Grant: x.g, Cfg: cf, Reg: rg, Pres: presT{Kind: pXSub, VM: vm, VG: true}, Tag: "block=subject_check"})
+					}
+				}
+				cs = append(cs, caseT{Router: router, Endpoint: x.e, Grant: x.g, Cfg: subj, Reg: rg, Pres: presT{Kind: pXAssert, VM: 2, VG: true}, Tag: "block=subject_check"})
+			}
+			for meth := 0; meth < 5; meth++ {
+				mv++
+				rg := regT{Known: true, Meth: meth, MV: mv, App: 0, Grants: full(), HasKey: meth == 2}
+				cs = append(cs, caseT{Router: router, Endpoint: x.e, Grant: x.g, Cfg: subj, Reg: rg, Pres: fitting[meth], Tag: "block=subject_check"})
 			}
 			// (6) near misses of the grant_type value itself (other case, surrounding white space, keyword), with the artefact
 			// and the registration of the real grant and a fitting credential
@@ -1452,7 +1533,7 @@ func enumerate(r drv.Rand, emitCase func(caseT)) {
 									if g == gUnknown && r.Chance(2, 3) {
 										c.GBase, c.GForm = r.IntN(6), 1+r.IntN(len(grantForms))
 									}
-									c.Cfg = cfgT{bits(flags, 0), bits(flags, 1), bits(flags, 2), r.Bool(), r.Bool(), r.Bool(), r.Chance(1, 3)}
+									c.Cfg = cfgT{bits(flags, 0), bits(flags, 1), bits(flags, 2), r.Bool(), r.Bool(), r.Bool(), r.Chance(1, 3), r.Chance(1, 3)}
 									capOn := bits(v, 0)
 									switch grantOf(e, g) {
 									case gCC:
@@ -1527,7 +1608,7 @@ func main() {
 	}
 	err := w.Close(emit.Meta{Property: "C05", Tier: cfg.Tier, Seed: cfg.Seed, Exhaustive: exhaustive,
 		Extra: map[string]any{"primer_requests_not_answered_active": primerFailed, "self_primer_requests": selfPrimers, "self_primer_requests_answered_2xx": selfPrimerOK},
-		Rule:  "one HTTP request per case against the Provider or the LegacyServer router over refstore, with an otherwise valid grant (code+PKCE, refresh token, device code, subject token, key-signed assertion) prepared in an emptied store for the case's client X - or, for the four cross-client presentations, for a second confidential client Y whose id the request mixes with X's valid credential; varied: registration (auth method, grant set, app type, key, known), presented credential (20 forms), grant_type (9), provider flags and storage capabilities (6 switches), endpoint (4); observed also: the client the answer acted for (owner of the created token / device code, of the revoked or active token). Both tiers: directed defect inputs + systematic blocks (router x endpoint/grant x auth method x application type with fitting credential and with client_id only; router x endpoint/grant x cross-client presentation). Round 5: secrets are right / wrong / empty / white space only / a near miss of the right one, ids exact or a near miss (surrounding white space, other case, case-fold twins, trailing slash, one byte more or fewer, keyword literals), each kind in many concrete strings and wire encodings (raw, %XX, + ; tags basic_secret, form_secret, id_form, basic_enc, form_enc), stored secrets plain / 1-4 KiB long / with white space or reserved characters (stored_secret), near misses of the grant_type value (grant_form), and cases that follow X's own fully credentialed request on the same endpoint (prev=self); blocks near_miss, near_miss_grant_type, method_x_refusal. quick: + random draws (fitting credential half of the time); thorough: + the cross product, enumerating of the grant set only the membership of the grant at stake, of the six switches the three flags and the capability at stake, and drawing the application type. Non-trivial = model path class != 0 (the request got past the first guard of its handler); distinct = distinct (input, path class).",
+		Rule:  "one HTTP request per case against the Provider or the LegacyServer router over refstore, with an otherwise valid grant (code+PKCE, refresh token, device code, subject token, key-signed assertion) prepared in an emptied store for the case's client X - or, for the four cross-client presentations, for a second confidential client Y whose id the request mixes with X's valid credential; varied: registration (auth method, grant set, app type, key, known), presented credential (20 forms), grant_type (9), provider flags and storage capabilities (6 switches), endpoint (4); observed also: the client the answer acted for (owner of the created token / device code, of the revoked or active token). Both tiers: directed defect inputs + systematic blocks (router x endpoint/grant x auth method x application type with fitting credential and with client_id only; router x endpoint/grant x cross-client presentation). Round 5: secrets are right / wrong / empty / white space only / a near miss of the right one, ids exact or a near miss (surrounding white space, other case, case-fold twins, trailing slash, one byte more or fewer, keyword literals), each kind in many concrete strings and wire encodings (raw, %XX, + ; tags basic_secret, form_secret, id_form, basic_enc, form_enc), stored secrets plain / 1-4 KiB long / with white space or reserved characters (stored_secret), near misses of the grant_type value (grant_form), and cases that follow X's own fully credentialed request on the same endpoint (prev=self); blocks near_miss, near_miss_grant_type, method_x_refusal. Round 6: a fifth auth-method class - AuthMethod() returns one of 13 values outside the library's constants (unset, client_secret_jwt, tls_client_auth, unknown, case variants; tag meth_value) for a client with a stored secret (block method_value) - and the LegacyServer built over a provider object that hides the optional method JWTProfileVerifier (7th switch, tag jwtprofile_method; block bare_provider), client_id next to an assertion, junk assertions. Round 7: secrets / ids that percent-decode one more time to the registered value (forms once_*), both routers built over a provider wrapper whose JWT profile verifier has a permissive SubjectCheck (8th switch, tag subject_check) and assertions of X whose subject is a second registered client (block subject_check). quick: + random draws (fitting credential half of the time); thorough: + the cross product, enumerating of the grant set only the membership of the grant at stake, of the six switches the three flags and the capability at stake, and drawing the application type. Non-trivial = model path class != 0 (the request got past the first guard of its handler); distinct = distinct (input, path class).",
 	})
 	if err != nil {
 		fmt.Fprintln(os.Stderr, err)
